@@ -283,6 +283,19 @@ def run_op(pool: Pool, op: dict) -> None:
         s3 = _guard(s.remove_between, 0, min(1, s.size))
         if s3 is not None:
             pool.add("slice", s3, "Slice.remove_between")
+        # the same LIVE slice (and live steps) handed to the transform layer: fitting must work on its own copies
+        for how in ("replace", "replace_range"):
+            tr = Transform(d)
+            _guard(getattr(tr, how), op["from"], op["to"], s)
+            for st_ in tr.steps[:2]:
+                pool.add("step", st_, f"Transform.{how}(live slice)")
+            if tr.steps:
+                pool.add("node", tr.doc, f"Transform.{how}(live slice)")
+        from prosemirror.transform import replace_step as _replace_step
+
+        st_ = _guard(_replace_step, d, op["from"], op["to"], s)
+        if st_ is not None:
+            pool.add("step", st_, "replace_step(live slice)")
     elif k == "copy_mark":
         d = it[op["doc"]]["obj"]
         ms = it[op["marks"]]["obj"]
